@@ -69,12 +69,12 @@ impl rand::RngCore for PrefixRng {
         u64::from_le_bytes(b)
     }
     fn fill_bytes(&mut self, dest: &mut [u8]) {
+        // the inner generator is always advanced by the full request (its own control flow must not depend on the prefix:
+        // the C18 counter comparison sees it), then the prefix bytes are laid over the result
+        self.inner.fill_bytes(dest);
         let k = (self.prefix.len() - self.pos).min(dest.len());
         dest[..k].copy_from_slice(&self.prefix[self.pos..self.pos + k]);
         self.pos += k;
-        if k < dest.len() {
-            self.inner.fill_bytes(&mut dest[k..]);
-        }
     }
     fn try_fill_bytes(&mut self, dest: &mut [u8]) -> Result<(), rand::Error> {
         self.fill_bytes(dest);
